@@ -63,6 +63,7 @@ def currentCfg : Cfg :=
     schemaMarkWritten := C09.schemaFlushCalls.contains "λ:value.MarkPersistedPrefix" &&
       !C09.schemaFlushCalls.contains "λ:value.MarkPersisted"
     kvMemFirst := kvMemFirstOf C09.kvGetOrCreateCalls
+    schemaLockedUsesCache := C09.schemaGetSchemaLockedCalls.contains "cache.Get"
     prepareSwapsEmpty := [C09.kvPrepareFlushCalls, C09.schemaPrepareFlushCalls, C09.invertedPrepareFlushCalls,
       C09.forwardPrepareFlushCalls].all (·.contains "immutable.IsEmpty") }
 
